@@ -1540,6 +1540,11 @@ class CodeGenerator(NodeVisitor):
 
         const = node.as_const(frame.eval_ctx)
 
+        # the text of other objects may not be the same at runtime, for
+        # example if it contains the address of the object
+        if not has_safe_repr(const):
+            raise nodes.Impossible()
+
         if frame.eval_ctx.autoescape:
             const = escape(const)
 
